@@ -475,6 +475,21 @@ def run(ctx):
         lines.append("unrank %d N" % k)
         lines.append("rankunrank %d" % k)
     ctx.compare("random-ranks", lines)
+    # lengths far beyond what any table of precomputed factorials would hold (16..40)
+    lines = []
+    for _ in range(max(60, R // 10)):
+        n = rng.randrange(16, 41)
+        p = structured_perm(rng, n)
+        lines.append("rank " + fseq(p))
+        lines.append("unrankrank " + fseq(p))
+        o = sum(math.factorial(j) for j in range(n))
+        f = math.factorial(n)
+        k = rng.choice([0, f - 1, rng.randrange(f)])
+        lines.append("unrank %d %d" % (k, n))
+        lines.append("unrank %d N" % (o + k))
+        lines.append("rankunrank %d" % (o + k))
+    lines += ["rank " + fseq(range(n)) for n in range(16, 41)] + ["rank " + fseq(range(n - 1, -1, -1)) for n in range(16, 41)]
+    ctx.compare("long-ranks", lines)
 
     # ---- standardisation
     lines = []
